@@ -257,6 +257,14 @@ class Report:
                 with open(path, "w") as f:
                     json.dump(payload, f, indent=1, sort_keys=True)
                 paths.append(path)
+                # a plain unit test that replays this single case without any explorer
+                with open(path[:-5] + "_test.py", "w") as f:
+                    f.write(
+                        '"""replays one violating case of %s on the code under test (no explorer); fails while the violation persists"""\n'
+                        "import subprocess\n\n\ndef test_replay():\n"
+                        '    r = subprocess.run(["/venv/bin/python", "-m", "mc.replay", %r], cwd="/verif", capture_output=True, text=True)\n'
+                        "    assert r.returncode == 0, r.stdout[-2000:]\n" % (self.prop, path)
+                    )
                 print(f"VIOLATION property={self.prop} replay={path}")
                 print(f"  what: {v.get('what')}", file=sys.stderr)
             if len(lst) > self.max_violation_files:
